@@ -59,15 +59,15 @@ var c05GovParams = [][]string{
 	{"storage", "Referrals", `"0"`, `"100"`, `"101"`, `"-1"`, `"9223372036854775807"`},
 	{"storage", "POLRatio", `"0"`, `"100"`, `"101"`, `"-1"`, `"9223372036854775807"`},
 	{"storage", "PriceFeed", `""`, `" "`, `"nofeed"`},
-	{"storage", "DepositAccount", `""`, `"x"`},
+	{"storage", "DepositAccount", `""`, `"x"`, `" "`},
 	{"jklmint", "TokensPerBlock", `"0"`, `"-1"`, `"9223372036854775807"`},
 	{"jklmint", "MintIncrease", `"0"`, `"-1"`, `"9223372036854775807"`, `"5256000000"`},
 	{"jklmint", "StakerRatio", `"0"`, `"100"`, `"101"`, `"-1"`, `"9223372036854775807"`},
 	{"jklmint", "DevGrants", `"0"`, `"100"`, `"-1"`, `"9223372036854775807"`},
 	{"jklmint", "ProviderRatio", `"0"`, `"100"`, `"-1"`, `"9223372036854775807"`},
-	{"jklmint", "MintDenom", `""`, `"ujkl"`, `"!!"`, `"a"`, `"UJKL"`, `"ibc/ABC"`},
-	{"jklmint", "StorageStipend", `""`, `"nonsense"`},
-	{"oracle", "Deposit", `""`, `"nonsense"`},
+	{"jklmint", "MintDenom", `""`, `"ujkl"`, `"!!"`, `"a"`, `"UJKL"`, `"ibc/ABC"`, `" ujkl"`, `"ujkl "`, `" "`, `"\tujkl\n"`},
+	{"jklmint", "StorageStipend", `""`, `"nonsense"`, `" "`},
+	{"oracle", "Deposit", `""`, `"nonsense"`, `" "`},
 }
 
 var c05Digits = regexp.MustCompile(`[0-9]+`)
